@@ -21,7 +21,10 @@ if ! git -C "$wt" apply "$V/$kind/$name/patch.diff" 2>/dev/null; then
 fi
 mkdir -p "$sv/evidence" "$sv/replay"; ln -s $V/known_findings.json "$sv/known_findings.json"; ln -s $V/checker "$sv/checker"
 hits=""
-for p in C01 C02 C03 C04 C05 C06 C07 C08 C09 C10 C11 C12 C13 C14 C15 C16 C17 C18 C19 C20; do
+props="C01 C02 C03 C04 C05 C06 C07 C08 C09 C10 C11 C12 C13 C14 C15 C16 C17 C18 C19 C20"
+# OWNPROP=1 (seeded only): run just the check of the property the seed was written for (the name starts with its id)
+[ -n "$OWNPROP" ] && [ "$kind" = seeded ] && props=$(echo $name | cut -c1-3)
+for p in $props; do
   out=$($V/bin/oidcheck -repo "$wt" -verif "$sv" -prop $p -tier quick 2>&1)
   n=$(printf '%s\n' "$out" | grep -c '^VIOLATION')
   if [ "$n" -gt 0 ]; then hits="$hits $p:$n"; printf '%s\n' "$out" | grep -v '^    \|^VIOLATION\|^KNOWN' | cut -c1-400 | head -8 > /tmp/rg/$name.$p.txt; fi
